@@ -5,10 +5,10 @@
 (* exactly when enough other nodes exist.                                     *)
 EXTENDS Selector, TLC, Json
 
-CONSTANTS MaxDC1, MaxOther, NumDCs, MaxLen, WithWait, EmitHist,
+CONSTANTS MaxIdx, NumDCs, MaxLen, WithWait, EmitHist,
           SetAt   \* history positions (0-based) at which a membership update may happen
 
-Layouts == { l \in [1..NumDCs -> 0..MaxOther] : l[1] >= 1 /\ l[1] <= MaxDC1 }
+Layouts == { l \in [1..NumDCs -> SUBSET (1..MaxIdx)] : 1 \in l[1] }
 
 VARIABLES hist, layout
 vars == <<hist, layout>>
